@@ -164,13 +164,16 @@ class PrTarget(object):
         return self.illegal(0x20, 0x00)
 
 
-def reservations(chk):
+def reservations(chk, mini=False):
+    """mini: one exhaustive configuration, a spread of its behaviours, no simulation (used by harness.selftest)"""
     from ..core import bindings
     ev = chk.ev
     beh = []
     cfgs = ["MC_Reservations_iscsi.cfg", "MC_Reservations_sgio.cfg", "MC_ReservationsS_iscsi.cfg", "MC_ReservationsS_sgio.cfg"]
     if not chk.quick:
         cfgs += ["MC_Reservations2_iscsi.cfg", "MC_Reservations2_sgio.cfg"]
+    if mini:
+        cfgs = cfgs[:2]
     for cfg in cfgs:
         r = tlc.run("Reservations", cfg, workers=8, timeout=1800, coverage=cfg.startswith("MC_Reservations_"), name="c13pr")
         if not r.ok:
@@ -188,12 +191,14 @@ def reservations(chk):
             b = pre + random.Random(chk.seed).sample(b, 600 - len(pre))
         beh += b
         r.prints = []
-    for cfg in ("Sim_Reservations_iscsi.cfg", "Sim_Reservations_sgio.cfg"):
+    for cfg in (() if mini else ("Sim_Reservations_iscsi.cfg", "Sim_Reservations_sgio.cfg")):
         rs = tlc.run("Reservations", cfg, workers=1, timeout=1800, name="c13prsim", simulate="num=%d" % (60 if chk.quick else 4000),
                      extra=["-depth", "40", "-seed", str(chk.seed + 19)])
         if rs.violated:
             raise tlc.TLCFailure("Reservations.tla (simulation) violated %s" % rs.violated)
         beh += [v for t, v in rs.prints if t == "RESERVATIONS"]
+    if mini:
+        beh = beh[::max(1, len(beh) // 160)]
     fs, fi = bindings.install(True, True)
     d = bindings.shm_dir("c13p")
     paths = {1: os.path.join(d, "sg_i1"), 2: os.path.join(d, "sg_i2")}
